@@ -170,6 +170,11 @@ class Image:
             if used + len(r) > 488 or (not self.pack_cache and self.rng.random() < 0.15 and blocks[-1]):
                 blocks.append([]); used = 0
             blocks[-1].append(r); used += len(r)
+        # a chain may hold blocks without records that still have a successor (a writer that does not unlink emptied blocks, or
+        # keeps a spare one): recordsNb and nextDirC are independent fields
+        if self.rng.random() < 0.3:
+            for _ in range(self.rng.choice([1, 1, 2])):
+                blocks.insert(self.rng.choice([0, 0, len(blocks) // 2, len(blocks)]), [])
         ids = [self.alloc() for _ in blocks]
         for k, (cid, rs) in enumerate(zip(ids, blocks)):
             cb = self.new_block()
